@@ -184,6 +184,9 @@ func judge(tab []link, hist []int, opt route.MinimizeOption, net *route.Network,
 		if len(rt) != 0 {
 			return "route-for-unconnected-or-identical-nodes", fmt.Sprint(rt), false
 		}
+		if dist != 0 || tm != 0 {
+			return "empty-route-with-non-zero-totals", fmt.Sprintf("distance %g time %g", dist, tm), false
+		}
 		return "", "", false
 	}
 	if len(rt) == 0 {
